@@ -335,6 +335,9 @@ class AccessMixin:
             nv = View(v.root, lo=nlo, hi=v.hi, hi_val=v.hi_val)
             nv.parent = v
             nv.lo_val = lo
+            nv.end = getattr(v, "end", None)     # (anchor position, length value): the view ends at anchor + length
+            if hi is not None:
+                nv.end = (v.lo, hi)
             if hi is not None:
                 if isinstance(hi, int) and isinstance(lo, int):
                     nv.hi = pos_add(v.lo, hi)
@@ -362,7 +365,9 @@ class AccessMixin:
 
     def sym_name(self, v):
         if isinstance(v, Sym):
-            return ("sym", v.key())
+            k = ("sym", v.key())
+            self.dyn_syms[k] = v
+            return k
         return v
 
     def set_item(self, obj, key, v, node, frame):
